@@ -1,4 +1,5 @@
 import LentilVerif.Lemmas.Units
+import LentilVerif.Lemmas.Spectrum
 /-! C14 — unit conversions are consistent; `Spectrum.to` preserves integrals/values; Planck's law is unit-independent.
 `Gen.waveTo`, `Gen.fluxTo` are regenerated from lentil/radiometry.py on every run (decimal literals as exact rationals).
 Statements over an arbitrary field of characteristic 0 hold in particular over ℚ (what the driver runs) and ℝ. -/
@@ -40,30 +41,36 @@ theorem flux_homogeneous {K : Type} [Field K] [CharZero K] (p f w H C : K) :
 /-- `Spectrum.to(wave unit)` on a per-wavelength density: the trapezoid integral is unchanged -/
 theorem spectrum_to_preserves_trapz_integral (s : USpec) (u : WUnit) (f : FUnit) (h : s.vu = some f) :
     trapz (toWave u s).wave (toWave u s).value = trapz s.wave s.value := by
-  simp only [toWave, h]
+  simp only [toWave_eq, h]
   exact trapz_scale _ (waveTo_ne_zero _ _) _ _
 
 /-- `Spectrum.to(wave unit)` on a unitless spectrum: the values are unchanged, the wavelengths rescaled -/
 theorem spectrum_to_preserves_values (s : USpec) (u : WUnit) (h : s.vu = none) :
     (toWave u s).value = s.value ∧ (toWave u s).wave = s.wave.map (· * waveTo s.wu u) ∧ (toWave u s).vu = none := by
-  simp [toWave, h]
+  simp [toWave_eq, h]
 
 /-- wavelength-unit conversions of a spectrum compose (A→B→C = A→C) and round trips restore it -/
 theorem spectrum_to_wave_cocycle (s : USpec) (b c : WUnit) : toWave c (toWave b s) = toWave c s := by
   cases hv : s.vu <;>
-    simp only [toWave, hv, map_mul_mul, map_div_div, waveTo_cocycle]
+    simp only [toWave_eq, hv, map_mul_mul, map_div_div, waveTo_cocycle]
 
 theorem spectrum_to_wave_round_trip (s : USpec) (u : WUnit) : toWave s.wu (toWave u s) = s := by
   rw [spectrum_to_wave_cocycle]
-  cases hv : s.vu <;> cases s <;> simp_all [toWave, waveTo_self]
+  cases hv : s.vu <;> cases s <;> simp_all [toWave_eq, waveTo_self]
+
+/-- converting the wavelength unit keeps a valid grid valid (positive, strictly increasing): the `wave` setter, which the
+model does not re-run, cannot refuse the converted grid -/
+theorem toWave_valid (s : USpec) (u : WUnit) (h : validWave s.wave = true) : validWave (toWave u s).wave = true := by
+  have hk := waveTo_pos s.wu u
+  cases hv : s.vu <;> simp only [toWave_eq, hv] <;> exact validWave_map_mul _ _ hk h
 
 /-- flux-unit round trips restore the spectrum (well-formed, non-zero wavelengths) -/
 theorem spectrum_to_flux_round_trip (s s' s'' : USpec) (f g : FUnit) (H C : ℚ) (hH : H ≠ 0) (hC : C ≠ 0)
     (hf : s.vu = some f) (hl : s.value.length = s.wave.length) (hw : ∀ w ∈ s.wave, w ≠ 0)
     (h1 : toFlux g H C s = some s') (h2 : toFlux f H C s' = some s'') : s'' = s := by
-  simp only [toFlux, hf, Option.some.injEq] at h1
+  simp only [toFlux_eq, hf, Option.some.injEq] at h1
   subst h1
-  simp only [toFlux, Option.some.injEq] at h2
+  simp only [toFlux_eq, Option.some.injEq] at h2
   subst h2
   cases s with
   | mk wave value wu vu =>
@@ -78,9 +85,9 @@ theorem spectrum_to_flux_round_trip (s s' s'' : USpec) (f g : FUnit) (H C : ℚ)
 theorem spectrum_to_flux_cocycle (s s' : USpec) (f g h : FUnit) (H C : ℚ) (hH : H ≠ 0) (hC : C ≠ 0)
     (hf : s.vu = some f) (hw : ∀ w ∈ s.wave, w ≠ 0) (h1 : toFlux g H C s = some s') :
     toFlux h H C s' = toFlux h H C s := by
-  simp only [toFlux, hf, Option.some.injEq] at h1
+  simp only [toFlux_eq, hf, Option.some.injEq] at h1
   subst h1
-  simp only [toFlux, hf, Option.some.injEq]
+  simp only [toFlux_eq, hf, Option.some.injEq]
   have hkm := waveTo_ne_zero (K := ℚ) s.wu .m
   have hb := waveTo_ne_zero (K := ℚ) .m s.wu
   have hkb : (waveTo .m s.wu : ℚ) * waveTo s.wu .m = 1 := by rw [waveTo_cocycle, waveTo_self]
@@ -106,12 +113,12 @@ theorem applyTo_refusal_keeps_prefix (H C : ℚ) (s : USpec) (a : WUnit) (g : FU
   have ha : WUnit.ofName? a.name = some a := by cases a <;> rfl
   have hg : WUnit.ofName? g.name = none := by cases g <;> rfl
   have hg' : FUnit.ofName? g.name = some g := by cases g <;> rfl
-  have hv : (toWave a s).vu = none := by simp [toWave, h]
-  simp only [applyTo, ha, hg, hg', toFlux, hv]
+  have hv : (toWave a s).vu = none := by simp [toWave_eq, h]
+  simp only [applyTo, ha, hg, hg', toFlux_eq, hv]
 
 /-- a unitless spectrum cannot be given a flux unit (TypeError), and is left as it was -/
 theorem spectrum_to_flux_unitless_refused (s : USpec) (g : FUnit) (H C : ℚ) (h : s.vu = none) :
-    toFlux g H C s = none := by simp [toFlux, h]
+    toFlux g H C s = none := by simp [toFlux_eq, h]
 
 /-- exitance = π × radiance in every wavelength and flux unit, between the two definitions translated separately from
 `planck_exitance` and `planck_radiance` (`exp` uninterpreted): a slip in one of the two functions breaks this proof -/
@@ -147,7 +154,7 @@ theorem planck_flux_unit_independent {K : Type} [Field K] [CharZero K] (expf : K
 
 /-- non-vacuity: 700 nm → µm on a `wlam` density, concrete numbers -/
 example : toWave .um ⟨[500, 700], [2, 4], .nm, some .wlam⟩ = ⟨[1/2, 7/10], [2000, 4000], .um, some .wlam⟩ := by
-  simp [toWave, waveTo]; norm_num
+  simp [toWave_eq, waveTo]; norm_num
 
 example : trapz [500, 700] [2, 4] = 600 ∧ trapz [1/2, 7/10] [2000, 4000] = (600 : ℚ) := by
   constructor <;> norm_num [trapz]
